@@ -10,17 +10,181 @@ import PyxisVerif.Props.C14
 # From per-item theorems to every accepted case, part 2 (C03, C04, C05, C07, C11, C13, C14)
 
 `Lemmas/CaseLift.lean` carries the provenance invariant `AllGood` through a whole run and lifts C01, C06, C08, C15,
-C16, C17.  This file adds what the remaining properties need:
+C16, C17.  This file adds what the remaining properties need (`Props/CaseLift2.lean` states the lifted theorems):
 
-* C03: the layout core (`Layout.resolve`, `Layout.alignCheck`) does not look at the payload of the fields it places
+* **properties of states that a whole run keeps** (`Closed`): whatever `add_item` and the resolution of an item keep is
+  kept by `SemanticState::new`, `add_module`, every resolution attempt, the resolution loop (`Closed.init`, `.addMod`,
+  `.attempt`, `.round`, `.loop`).  Instances: the pointer width (`case_ps`), the well-formedness of the stored modules
+  (`ModInv`, `case_modInv`: distinct keys; distinct definition paths, children of the module's path, entries of the
+  registry), "every item of a non-root module is listed in its module" (`Listed`, `case_listed` – needs pairwise
+  distinct module paths, `listed_fold`), "every module path of the case is stored" (`case_modules_present`).
+* **C03**: the layout core (`Layout.resolve`, `Layout.alignCheck`) does not look at the payload of the fields it places
   (`resolve_U_eq`, `alignCheck_U`), so an accepted `type_definition::build` is an accepted C03 description
-  (`verdict_of_layout`) – the `TypeSpec` read off the pending fields in the final registry (`specType`);
-  `case_layout_master` states the layout of every emitted struct of an accepted case in the final registry.
+  (`verdict_of_layout`) – the `TypeSpec` read off the pending fields (`specType`); `case_layout_master` states the layout
+  of every emitted struct of an accepted case in the final registry.
+* **C04**: `case_vftable_master` – the vftable block of every emitted struct converts to its table, and the final
+  registry holds exactly the item `vftable::build_type` generates from it.
+* **C05 / C11**: a finer invariant on the stored modules (`ModSrc`, `ModOf2`: a stored module is `add_module` of a module
+  *written in the case under its path* – same `use` list, same function blocks), carried through the run with the
+  machinery of `Lemmas/CaseLift.lean` (`case_J2`, `case_type_origin2`, `case_enum_origin2`); `case_impl_master` (the
+  struct's own functions are exactly the functions of all function blocks of that module for the type, built in order),
+  `case_field_types_master`, `case_vfunc_types_master`, `case_modules_src` (the scope every type name is looked up in).
+* **C07**: `specBases` – the functions a type inherits from its `#[base]` fields, all bases in order – and
+  `injectBases_exact` / `case_fns_exact`: the functions of every emitted struct are exactly `specBases`, read in the
+  final registry, followed by its own; every `#[base]` field is a named field of a resolved struct.
+* **C13**: `buildType_defaultable`, `case_stmts_master`.
 
-## Specification part (definitions only) and lemma part are interleaved per property; definitions are marked `def`.
+Definitions (specification part) are marked `def` / `structure` and are interleaved with the lemmas that use them.
 -/
 namespace PyxisVerif.CaseLift2
 open Gen Layout CaseLift
+
+/-! ### properties of states that a whole run keeps -/
+
+/-- a property of states that `add_item` and the resolution of an item keep -/
+structure Closed (I : State → Prop) : Prop where
+  addItem : ∀ s s' i, I s → s.addItem i = .ok s' → I s'
+  setState : ∀ s p st, I s → I { s with reg := s.reg.setState p st }
+
+theorem Closed.reach2 {I : State → Prop} (hI : Closed I) {s s1 : State} {owner : Path}
+    (hr : C02.Reach2 s s1 owner) (hs : I s) : I s1 := by
+  rcases hr with rfl | ⟨vis, fns, item, _, _, ha⟩
+  · exact hs
+  · exact hI.addItem s s1 item hs ha
+
+theorem Closed.attempt {I : State → Prop} (hI : Closed I) (s : State) (p : Path) (hs : I s) :
+    I (attemptItem s p).1 := by
+  unfold attemptItem
+  split
+  · exact hs
+  · split
+    · exact hs
+    · next d hd =>
+      split
+      · next td htd =>
+        have sh := hI.reach2 (C02.buildType_reach2 s p d.vis td) hs
+        split
+        · next s1 r hb => rw [hb] at sh; exact hI.setState s1 p (.res r) sh
+        · next s1 hb => rw [hb] at sh; exact sh
+        · next s1 m hb => rw [hb] at sh; exact sh
+        · next s1 m hb => rw [hb] at sh; exact sh
+      · split
+        · next r _ => exact hI.setState s p (.res r) hs
+        · exact hs
+        · exact hs
+        · exact hs
+
+theorem Closed.round {I : State → Prop} (hI : Closed I) (l : List Path) (s : State) (hs : I s) :
+    I (runRound s l).1 := by
+  induction l generalizing s with
+  | nil => exact hs
+  | cons p ps ih =>
+    have h2 := hI.attempt s p hs
+    unfold runRound
+    split
+    · next s1 ha => rw [ha] at h2; exact ih s1 h2
+    · next s1 e _ ha => rw [ha] at h2; exact h2
+
+theorem Closed.loop {I : State → Prop} (hI : Closed I) (prio : List Path) (fuel : Nat) (s : State)
+    (hs : I s) (s' : State) (hl : resolveLoop prio fuel s = .ok s') : I s' := by
+  induction fuel generalizing s with
+  | zero => simp [resolveLoop] at hl
+  | succ n ih =>
+    unfold resolveLoop at hl
+    simp only [] at hl
+    split at hl
+    · cases hl; exact hs
+    · have hr2 := hI.round (s.reg.unresolved prio) s hs
+      split at hl
+      · next s1 h1 =>
+        rw [h1] at hr2
+        split at hl
+        · cases hl
+        · exact ih s1 hr2 hl
+      · cases hl
+      · cases hl
+      · cases hl
+
+theorem Closed.init {I : State → Prop} (hI : Closed I) (ps : Nat)
+    (h0 : I { modules := [([], ({} : Mod))], reg := { ps := ps } }) : I (State.new ps) := by
+  rw [C02.new_eq]
+  have : ∀ (l : List (String × Nat)) (s : State), I s → I (l.foldl C02.newStep s) := by
+    intro l
+    induction l with
+    | nil => intro s hs; exact hs
+    | cons x l ih =>
+      intro s hs
+      simp only [List.foldl_cons]
+      apply ih
+      unfold C02.newStep
+      split
+      · next s' ha => exact hI.addItem s s' _ hs ha
+      · exact hs
+  exact this _ _ h0
+
+/-- `add_module` keeps a `Closed` property that storing the fresh module keeps -/
+theorem Closed.addMod {I : State → Prop} (hI : Closed I) (s s' : State) (m : G.Module) (path : Path)
+    (hput : ∀ xvals doc, I (s.putModule path (C14.newMod m path xvals doc)))
+    (h : s.addModule m path = .ok s') : I s' := by
+  obtain ⟨xvals, doc, s2, _, h1, h2⟩ := C14.addModule_inv s s' m path h
+  have k2 : I s2 :=
+    (C12.PO.foldlM_inv (S := fun _ => True) I (C14.defStep path) m.defs _ (hput xvals doc)
+      (fun b d _ hb => ⟨fun _ _ => trivial, fun b' hb' => by
+        obtain ⟨_, i, _, ha⟩ := C14.defStep_spec path b d b' hb'
+        exact hI.addItem b b' i hb ha⟩)).2 s2 h1
+  exact (C12.PO.foldlM_inv (S := fun _ => True) I (C14.xtypeStep path) m.xtypes _ k2
+      (fun b xt _ hb => ⟨fun _ _ => trivial, fun b' hb' => by
+        obtain ⟨_, i, _, ha⟩ := C14.xtypeStep_spec path b xt b' hb'
+        exact hI.addItem b b' i hb ha⟩)).2 s' h2
+
+/-- `add_item`, with the module it changes: the one stored under the parent of the item's path -/
+theorem addItem_inv' (s s' : State) (i : ItemDef) (h : s.addItem i = .ok s') :
+    ∃ parent m, Path.parent? i.path = some parent ∧ s.getModule parent = some m ∧
+      s' = { modules := s.modules.map (fun e => if e.1 == parent then
+                (e.1, { m with defPaths := if m.defPaths.contains i.path then m.defPaths else i.path :: m.defPaths }) else e),
+             reg := s.reg.add i } := by
+  unfold State.addItem at h
+  split at h
+  · cases h
+  · next parent hp =>
+    split at h
+    · cases h
+    · next m hm =>
+      simp only [Res.ok.injEq] at h
+      exact ⟨parent, m, hp, hm, h.symm⟩
+
+/-- one step of `Case.initialState` -/
+def modStep (s : State) (me : ModEnt) : Res State :=
+  match me with
+  | .ast path _ m => s.addModule m path
+  | .text _ _ => .err "tmodule: text modules are handled by the parser model"
+
+theorem initialState_eq (c : Case) : c.initialState = Res.foldlM modStep (State.new c.ps) c.modules := rfl
+
+/-- the pointer width of the registry never changes -/
+theorem ps_closed (ps : Nat) : Closed (fun t : State => t.reg.ps = ps) :=
+  ⟨fun t t' i ht ha => by rw [C14.addItem_reg t t' i ha]; exact ht, fun _ _ _ ht => ht⟩
+
+/-- **the pointer width of the final registry of an accepted case is the case's** -/
+theorem case_ps (c : Case) (s : State) (h : c.run = .ok s) : s.reg.ps = c.ps := by
+  unfold Case.run at h
+  split at h
+  · next s0 hs0 =>
+    rw [initialState_eq] at hs0
+    have h0 : s0.reg.ps = c.ps := by
+      refine (C12.PO.foldlM_inv (S := fun _ => True) (fun t : State => t.reg.ps = c.ps) modStep c.modules _
+        ((ps_closed c.ps).init c.ps rfl) ?_).2 s0 hs0
+      intro b me _ hb
+      cases me with
+      | ast path file m =>
+        exact ⟨fun _ _ => trivial, fun b' hb' => (ps_closed c.ps).addMod b b' m path (fun _ _ => hb) hb'⟩
+      | text f t => exact ⟨fun _ _ => trivial, fun _ h => by cases h⟩
+    obtain ⟨s1, hl, ms, hms, rfl⟩ := C09.build_ok_inv s0 c.prio s h
+    exact (ps_closed c.ps).loop c.prio _ s0 h0 s1 hl
+  · cases h
+  · cases h
+  · cases h
+
 
 /-- forget the payload of a pending field -/
 def pfU {β} (f : PField β) : PField Unit := { addr := f.addr, size := f.size, align := f.align, isArr := f.isArr, val := () }
@@ -1274,6 +1438,603 @@ theorem resolveTy_ident (reg : Registry) (scope : List Path) (nm : String) (t : 
   split at h
   · next t' ht' => cases h; exact ht'
   · cases h
+
+
+/-! ### C13: what acceptance guarantees about every emitted struct -/
+
+/-- an accepted `type_definition::build` of a `defaultable` type passed the defaultable check, in the registry after
+    the type's vftable was registered -/
+theorem buildType_defaultable (s s1 : State) (path : Path) (vis : Vis) (d : G.TypeDef) (r : Resolved)
+    (h : buildType s path vis d = (s1, .ok r)) :
+    ∃ td, r.inner = .type td ∧ (td.defaultable = true → checkDefaultable s1.reg td.regions = .ok ()) := by
+  unfold buildType at h
+  split at h
+  · simp only [Prod.mk.injEq] at h; exact absurd h.2 (by simp)
+  · split at h
+    · simp only [Prod.mk.injEq] at h; exact absurd h.2 (by simp)
+    · split at h
+      · rename_i ta hta
+        split at h
+        · split at h
+          · rename_i s1' regions vft size placed hrr
+            simp only [Prod.mk.injEq] at h
+            obtain ⟨rfl, h⟩ := h
+            split at h
+            · cases h
+            · split at h
+              · split at h
+                · split at h
+                  · rename_i hck
+                    split at h
+                    · cases h
+                      refine ⟨_, rfl, ?_⟩
+                      intro hdef
+                      simp only [] at hdef
+                      rw [if_pos hdef] at hck
+                      exact hck
+                    · exact absurd h (C01.cast_ne_ok _ _)
+                  · exact absurd h (C01.cast_ne_ok _ _)
+                · exact absurd h (C01.cast_ne_ok _ _)
+              · exact absurd h (C01.cast_ne_ok _ _)
+          · simp only [Prod.mk.injEq] at h; exact absurd h.2 (C01.cast_ne_ok _ _)
+        · simp only [Prod.mk.injEq] at h; exact absurd h.2 (C01.cast_ne_ok _ _)
+      · simp only [Prod.mk.injEq] at h; exact absurd h.2 (C01.cast_ne_ok _ _)
+
+theorem fldsOf_mem (reg : Registry) (rs : List Region) (fs : List RustSem.Fld) (h : Exec.fldsOf reg rs = some fs) :
+    ∀ rg ∈ rs, ∃ f, Exec.fldOf reg rg = some f := by
+  induction rs generalizing fs with
+  | nil => intro rg hrg; cases hrg
+  | cons r rs ih =>
+    simp only [Exec.fldsOf] at h
+    cases h1 : Exec.fldOf reg r with
+    | none => simp [h1] at h
+    | some f =>
+      cases h2 : Exec.fldsOf reg rs with
+      | none => simp [h1, h2] at h
+      | some fs' =>
+        intro rg hrg
+        rcases List.mem_cons.mp hrg with rfl | hrg
+        · exact ⟨f, h1⟩
+        · exact ih fs' h2 rg hrg
+
+theorem tyLayout_defaultablePath (reg : Registry) (t : DTy) (x : Nat × Nat) (q : Path)
+    (h : C02.tyLayout reg.ps (C02.regLayout reg) t = some x) (hq : t.defaultablePath = some q) :
+    ∃ item res, reg.get q = some item ∧ item.state = .res res := by
+  induction t generalizing x with
+  | raw p =>
+    simp only [DTy.defaultablePath, Option.some.injEq] at hq
+    subst hq
+    simp only [C02.tyLayout, C02.regLayout] at h
+    cases hg : reg.get p with
+    | none => rw [hg] at h; cases h
+    | some item =>
+      rw [hg] at h
+      simp only [Option.bind_some, Option.map_eq_some_iff] at h
+      obtain ⟨res, hres, _⟩ := h
+      exact ⟨item, res, rfl, C02.resolved?_eq hres⟩
+  | cptr t _ => cases hq
+  | mptr t _ => cases hq
+  | arr t n ih =>
+    simp only [DTy.defaultablePath] at hq
+    simp only [C02.tyLayout, Option.map_eq_some_iff] at h
+    obtain ⟨y, hy, _⟩ := h
+    exact ih y hy hq
+
+/-- **the statement loop of every emitted struct**: a generated vftable struct (not defaultable, derives nothing), or
+    built from a definition written in the case, whose statement loop ran (in a registry the final one extends) to the
+    pending fields `sa.pending`; every field of the emitted struct is generated (private, undocumented) or one of them;
+    a `defaultable` struct passed the defaultable check in a registry `s1.reg` the final one extends, in which every field
+    of the emitted struct has a known layout -/
+theorem case_stmts_master (c : Case) (hps : c.ps = 4 ∨ c.ps = 8) (hb : C12.CaseBounded c) (s : State)
+    (h : c.run = .ok s) (p : Path) (i : ItemDef) (r : Resolved) (td : TypeDefn)
+    (hg : s.reg.get p = some i) (hs : i.state = .res r) (hin : r.inner = .type td) (hc : i.cat = .defined) :
+    (∃ (reg0 : Registry) (owner : Path) (vis : Vis) (fns : List SFunc),
+        buildVftableItem reg0 owner vis fns = some i ∧ i.path = p ∧ i.vis = vis ∧
+        td = { regions := fns.map (functionToRegion owner) }) ∨
+    ∃ (item : G.Item) (d : G.TypeDef) (s0 s1 : State) (module : Mod) (sa : StmtAcc),
+      Declared c p item ∧ item.inner = .type d ∧ s0.moduleFor p = some module ∧ C02.Ext s0.reg s1.reg ∧
+      C02.Ext s1.reg s.reg ∧
+      Res.foldlM (stmtStep s0.reg module.scope) {} (d.stmts.zipIdx.map fun q => (q.2, q.1)) = .ok sa ∧
+      (∀ rg ∈ td.regions, (rg.vis = .priv ∧ rg.doc = none) ∨ (rg.name.isSome ∧ rg ∈ sa.pending.map (·.2))) ∧
+      (td.defaultable = true → checkDefaultable s1.reg td.regions = .ok ()) ∧
+      (∀ rg ∈ td.regions, ∃ f, Exec.fldOf s1.reg rg = some f) := by
+  rcases case_type_origin c hps hb s h p i r td hg hs hin hc with
+    ⟨reg0, owner, vis, fns, hv, hp⟩ | ⟨s0, s1, item, d, hok, hinv, hQ, hD, hget, hd, hbt, he, hi⟩
+  · obtain ⟨htd, hvis, _⟩ := vftable_item_td reg0 owner vis fns i r td hv hs hin
+    exact Or.inl ⟨reg0, owner, vis, fns, hv, hp, hvis, htd⟩
+  · right
+    obtain ⟨module, module1, ta, sa, vft, vregion, placed, acc1, acc2, td', hmod, hmod1, hdoc, hta, hsa, hbv, hres, hn, hal,
+      hacc1, hacc2, hin', hfns, hvft, _⟩ := buildType_full s0 s1 p item.vis d r hbt
+    rw [hin] at hin'
+    cases hin'
+    obtain ⟨td'', hin'', hdef⟩ := buildType_defaultable s0 s1 p item.vis d r hbt
+    rw [hin] at hin''
+    cases hin''
+    have he01 := Exec.buildVftable_ext s0 s1 p item.vis _ _ _ hbv
+    have hprims1 : C02.PrimsOk s1.reg := Exec.primsOk_ext he01 hinv.1.prims
+    refine ⟨item, d, s0, s1, module, sa, hD, hd, hmod, he01, he, hsa, ?_, hdef,
+      fldsOf_mem s1.reg td.regions _ (Exec.fldsOf_placed s1.reg hprims1 vregion sa.pending ta.targetSize placed r.size hres
+        td.regions hn)⟩
+    · intro rg hrg
+      rcases regions_src s1.reg vregion sa.pending ta.targetSize placed r.size td.regions hres hn rg hrg with
+        hgen | ⟨hnm, hv | hpend⟩
+      · exact Or.inl hgen
+      · left
+        rcases buildVftable_cases s0 s1 p item.vis _ sa.vfns vft vregion hbv with
+          ⟨_, _, hp, _⟩ | ⟨_, _, hp, _⟩ | ⟨_, _, _, _, hp, _⟩ | ⟨_, vpath, _, _, _, hp, _⟩ | ⟨_, _, _, _, _, _, _, _, _, hp, _⟩
+        · rw [hp] at hv; cases hv
+        · rw [hp] at hv; cases hv
+        · rw [hp] at hv; cases hv
+        · rw [hp] at hv; cases hv; exact ⟨rfl, rfl⟩
+        · rw [hp] at hv; cases hv
+      · exact Or.inr ⟨hnm, hpend⟩
+
+/-! ### C14: the stored modules and their definition paths, through a whole run -/
+
+/-- **the stored modules are well formed**: their keys are pairwise distinct; the definition paths of each are
+    pairwise distinct, are children of the module's path, and are entries of the registry -/
+structure ModInv (s : State) : Prop where
+  keys : (s.modules.map (·.1)).Nodup
+  nodup : ∀ e ∈ s.modules, e.2.defPaths.Nodup
+  parent : ∀ e ∈ s.modules, ∀ q ∈ e.2.defPaths, Path.parent? q = some e.1
+  listed : ∀ e ∈ s.modules, ∀ q ∈ e.2.defPaths, s.reg.contains q = true
+
+theorem contains_setState (r : Registry) (p q : Path) (st : IState) :
+    (r.setState p st).contains q = r.contains q := by
+  unfold Registry.contains
+  rw [C12.get_setState]
+  split
+  · cases r.get q <;> rfl
+  · rfl
+
+theorem modInv_closed : Closed ModInv := by
+  refine ⟨?_, ?_⟩
+  · intro s s' i hs h
+    obtain ⟨par, m0, hpar, hm0, rfl⟩ := addItem_inv' s s' i h
+    have hmem0 := C14.mem_of_lookup s.modules par m0 hm0
+    refine ⟨?_, ?_, ?_, ?_⟩
+    · have : (s.modules.map (fun e => if e.1 == par then
+          (e.1, { m0 with defPaths := if m0.defPaths.contains i.path then m0.defPaths else i.path :: m0.defPaths }) else e)).map (·.1)
+          = s.modules.map (·.1) := by
+        rw [List.map_map]
+        apply List.map_congr_left
+        intro e _
+        simp only [Function.comp]
+        split <;> rfl
+      simp only [this]
+      exact hs.keys
+    · exact C14.defPaths_nodup_main s _ i h hs.nodup
+    · intro e he q hq
+      simp only [List.mem_map] at he
+      obtain ⟨e0, he0, rfl⟩ := he
+      split at hq
+      · next hk =>
+        have hk' : e0.1 = par := by simpa using hk
+        simp only [hk] at hq ⊢
+        simp only [if_true]
+        split at hq
+        · rw [hk']; exact hs.parent _ hmem0 q hq
+        · rcases List.mem_cons.mp hq with rfl | hq
+          · rw [hk']; exact hpar
+          · rw [hk']; exact hs.parent _ hmem0 q hq
+      · next hk =>
+        simp only [hk] at hq ⊢
+        exact hs.parent e0 he0 q hq
+    · intro e he q hq
+      simp only [List.mem_map] at he
+      obtain ⟨e0, he0, rfl⟩ := he
+      rw [C14.contains_add]
+      split at hq
+      · split at hq
+        · exact Or.inl (hs.listed _ hmem0 q hq)
+        · rcases List.mem_cons.mp hq with rfl | hq
+          · exact Or.inr rfl
+          · exact Or.inl (hs.listed _ hmem0 q hq)
+      · exact Or.inl (hs.listed e0 he0 q hq)
+  · intro s p st hs
+    exact ⟨hs.keys, hs.nodup, hs.parent, fun e he q hq => by
+      show (s.reg.setState p st).contains q = true
+      rw [contains_setState]; exact hs.listed e he q hq⟩
+
+theorem modInv_putModule (s : State) (path : Path) (md : Mod) (hmd : md.defPaths = []) (hs : ModInv s) :
+    ModInv (s.putModule path md) := by
+  refine ⟨?_, ?_, ?_, ?_⟩
+  · simp only [State.putModule, List.map_cons, List.nodup_cons]
+    refine ⟨?_, (hs.keys.sublist (List.filter_sublist.map _))⟩
+    intro hmem
+    obtain ⟨e, he, hk⟩ := List.mem_map.mp hmem
+    have := (List.mem_filter.mp he).2
+    simp [hk] at this
+  · intro e he
+    simp only [State.putModule, List.mem_cons, List.mem_filter] at he
+    rcases he with rfl | ⟨he, _⟩
+    · rw [hmd]; exact List.nodup_nil
+    · exact hs.nodup e he
+  · intro e he q hq
+    simp only [State.putModule, List.mem_cons, List.mem_filter] at he
+    rcases he with rfl | ⟨he, _⟩
+    · rw [hmd] at hq; cases hq
+    · exact hs.parent e he q hq
+  · intro e he q hq
+    simp only [State.putModule, List.mem_cons, List.mem_filter] at he
+    rcases he with rfl | ⟨he, _⟩
+    · rw [hmd] at hq; cases hq
+    · exact hs.listed e he q hq
+
+theorem modInv_initial (c : Case) (s : State) (h : c.initialState = .ok s) : ModInv s := by
+  rw [initialState_eq] at h
+  have h0 : ModInv (State.new c.ps) := modInv_closed.init c.ps
+    ⟨(by simp), (by intro e he; simp at he; subst he; exact List.nodup_nil),
+     (by intro e he q hq; simp at he; subst he; cases hq),
+     (by intro e he q hq; simp at he; subst he; cases hq)⟩
+  refine (C12.PO.foldlM_inv (S := fun _ => True) ModInv modStep c.modules _ h0 ?_).2 s h
+  intro b me _ hb
+  cases me with
+  | ast path file m =>
+    exact ⟨fun _ _ => trivial, fun b' hb' =>
+      modInv_closed.addMod b b' m path (fun xvals doc => modInv_putModule b path _ rfl hb) hb'⟩
+  | text f t => exact ⟨fun _ _ => trivial, fun _ h => by cases h⟩
+
+theorem mapM'_map_eq {α β γ} (f : α → Res β) (g : β → γ) (k : α → γ) (hf : ∀ a b, f a = .ok b → g b = k a)
+    (l : List α) (l' : List β) (h : Res.mapM' f l = .ok l') : l'.map g = l.map k := by
+  induction l generalizing l' with
+  | nil => simp only [Res.mapM', Res.ok.injEq] at h; subst h; rfl
+  | cons a l ih =>
+    unfold Res.mapM' at h
+    split at h
+    · next b hb =>
+      split at h
+      · next bs hbs =>
+        simp only [Res.ok.injEq] at h
+        subst h
+        simp only [List.map_cons, hf a b hb, ih bs hbs]
+      all_goals cases h
+    all_goals cases h
+
+/-- what `build` does to the stored modules after the resolution loop: same keys, same definition paths -/
+theorem final_modules (reg : Registry) (l ms : List (Path × Mod))
+    (h : Res.mapM' (fun (e : Path × Mod) =>
+        match resolveXVals reg e.2 with
+        | .ok m => Res.ok (e.1, m)
+        | x => x.cast) l = .ok ms) :
+    ms.map (·.1) = l.map (·.1) ∧ ms.map (fun e => (e.1, e.2.defPaths)) = l.map (fun e => (e.1, e.2.defPaths)) := by
+  refine ⟨mapM'_map_eq _ _ _ ?_ l ms h, mapM'_map_eq _ _ _ ?_ l ms h⟩
+  · intro a b hab
+    split at hab
+    · cases hab; rfl
+    · exact (C14.cast_ne_ok _ _ hab).elim
+  · intro a b hab
+    split at hab
+    · next m' hm' =>
+      cases hab
+      obtain ⟨_, hdp, _⟩ := resolveXVals_inv reg a.2 m' hm'
+      simp only [hdp]
+    · exact (C14.cast_ne_ok _ _ hab).elim
+
+theorem mem_of_map_eq {α β} (f : α → β) (l l' : List α) (h : l'.map f = l.map f) : ∀ e' ∈ l', ∃ e ∈ l, f e' = f e := by
+  intro e' he'
+  have : f e' ∈ l.map f := by rw [← h]; exact List.mem_map_of_mem he'
+  obtain ⟨e, he, hfe⟩ := List.mem_map.mp this
+  exact ⟨e, he, hfe.symm⟩
+
+/-- **the stored modules of the final state of every accepted case are well formed** -/
+theorem case_modInv (c : Case) (s : State) (h : c.run = .ok s) : ModInv s := by
+  unfold Case.run at h
+  split at h
+  · next s0 hs0 =>
+    have h0 := modInv_initial c s0 hs0
+    obtain ⟨s1, hl, ms, hms, rfl⟩ := C09.build_ok_inv s0 c.prio s h
+    have h1 := modInv_closed.loop c.prio _ s0 h0 s1 hl
+    obtain ⟨hk, hdp⟩ := final_modules s1.reg s1.modules ms hms
+    refine ⟨by show (ms.map (·.1)).Nodup; rw [hk]; exact h1.keys, ?_, ?_, ?_⟩
+    · intro e' he'
+      obtain ⟨e, he, hfe⟩ := mem_of_map_eq _ _ _ hdp e' he'
+      simp only [Prod.mk.injEq] at hfe
+      rw [hfe.2]; exact h1.nodup e he
+    · intro e' he' q hq
+      obtain ⟨e, he, hfe⟩ := mem_of_map_eq _ _ _ hdp e' he'
+      simp only [Prod.mk.injEq] at hfe
+      rw [hfe.2] at hq
+      rw [hfe.1]; exact h1.parent e he q hq
+    · intro e' he' q hq
+      obtain ⟨e, he, hfe⟩ := mem_of_map_eq _ _ _ hdp e' he'
+      simp only [Prod.mk.injEq] at hfe
+      rw [hfe.2] at hq
+      exact h1.listed e he q hq
+  · cases h
+  · cases h
+  · cases h
+
+
+/-! ### C14: every item of a non-root module is listed in its module (when module paths are distinct) -/
+
+/-- the paths the (AST) modules of a case are written under, in order -/
+def astPaths (l : List ModEnt) : List Path :=
+  l.filterMap fun me => match me with | .ast p _ _ => some p | .text _ _ => none
+
+/-- every entry of the registry whose parent path is a non-root module is listed in the definition paths of the module
+    stored under that path -/
+def Listed (s : State) : Prop :=
+  ∀ q i par, s.reg.get q = some i → Path.parent? q = some par → par ≠ [] →
+    ∃ md, (par, md) ∈ s.modules ∧ q ∈ md.defPaths
+
+theorem lookup_of_mem_nodup {α β} [BEq α] [LawfulBEq α] (l : List (α × β)) (hn : (l.map (·.1)).Nodup) (k : α) (v : β)
+    (h : (k, v) ∈ l) : l.lookup k = some v := by
+  induction l with
+  | nil => cases h
+  | cons e l ih =>
+    obtain ⟨k', v'⟩ := e
+    simp only [List.map_cons, List.nodup_cons] at hn
+    rcases List.mem_cons.mp h with he | he
+    · cases he
+      simp
+    · have hne : k ≠ k' := by
+        intro e
+        apply hn.1
+        rw [← e]
+        exact List.mem_map.mpr ⟨(k, v), he, rfl⟩
+      have : (k == k') = false := by simpa using hne
+      rw [List.lookup_cons, this]
+      exact ih hn.2 he
+
+theorem keys_addItem (s s' : State) (i : ItemDef) (h : s.addItem i = .ok s') :
+    s'.modules.map (·.1) = s.modules.map (·.1) := by
+  obtain ⟨par, m0, _, _, rfl⟩ := addItem_inv' s s' i h
+  simp only [List.map_map]
+  apply List.map_congr_left
+  intro e _
+  simp only [Function.comp]
+  split <;> rfl
+
+theorem modInvListed_closed : Closed (fun s => ModInv s ∧ Listed s) := by
+  refine ⟨?_, ?_⟩
+  · intro s s' i hs h
+    refine ⟨modInv_closed.addItem s s' i hs.1 h, ?_⟩
+    obtain ⟨parent, m0, hpar, hm0, rfl⟩ := addItem_inv' s s' i h
+    have hmem0 := C14.mem_of_lookup s.modules parent m0 hm0
+    intro q j par hj hp hne
+    simp only [C14.get_add] at hj
+    by_cases hq : q = i.path
+    · subst hq
+      rw [hpar] at hp
+      cases hp
+      refine ⟨{ m0 with defPaths := if m0.defPaths.contains i.path then m0.defPaths else i.path :: m0.defPaths },
+        List.mem_map.mpr ⟨(parent, m0), hmem0, by simp⟩, ?_⟩
+      simp only
+      split
+      · next hc => simpa using hc
+      · exact List.mem_cons_self
+    · rw [if_neg hq] at hj
+      obtain ⟨md, hmd, hqm⟩ := hs.2 q j par hj hp hne
+      by_cases hk : par = parent
+      · subst hk
+        have : md = m0 := by
+          have := lookup_of_mem_nodup s.modules hs.1.keys par md hmd
+          unfold State.getModule at hm0
+          rw [this] at hm0
+          cases hm0; rfl
+        subst this
+        refine ⟨{ md with defPaths := if md.defPaths.contains i.path then md.defPaths else i.path :: md.defPaths },
+          List.mem_map.mpr ⟨(par, md), hmd, by simp⟩, ?_⟩
+        simp only
+        split
+        · exact hqm
+        · exact List.mem_cons_of_mem _ hqm
+      · refine ⟨md, List.mem_map.mpr ⟨(par, md), hmd, ?_⟩, hqm⟩
+        have : ((par == parent) : Bool) = false := by simpa using hk
+        simp [this]
+  · intro s p st hs
+    refine ⟨modInv_closed.setState s p st hs.1, ?_⟩
+    intro q j par hj hp hne
+    simp only [C12.get_setState] at hj
+    split at hj
+    · cases hg : s.reg.get q with
+      | none => rw [hg] at hj; cases hj
+      | some i0 => exact hs.2 q i0 par hg hp hne
+    · exact hs.2 q j par hj hp hne
+
+theorem listed_putModule (s : State) (path : Path) (md : Mod) (hs : Listed s)
+    (hfresh : path = [] ∨ path ∉ s.modules.map (·.1)) : Listed (s.putModule path md) := by
+  intro q i par hg hp hne
+  obtain ⟨md', hmd', hq⟩ := hs q i par hg hp hne
+  refine ⟨md', ?_, hq⟩
+  simp only [State.putModule, List.mem_cons, List.mem_filter]
+  right
+  refine ⟨hmd', ?_⟩
+  have : par ≠ path := by
+    rcases hfresh with rfl | hf
+    · exact hne
+    · intro e
+      apply hf
+      rw [← e]
+      exact List.mem_map.mpr ⟨(par, md'), hmd', rfl⟩
+  simpa using this
+
+/-- the keys after `add_module`: the module's path and the keys before -/
+theorem addModule_keys (s s' : State) (m : G.Module) (path : Path) (h : s.addModule m path = .ok s') :
+    (∀ k ∈ s'.modules.map (·.1), k = path ∨ k ∈ s.modules.map (·.1)) ∧
+    (∀ k ∈ s.modules.map (·.1), k ∈ s'.modules.map (·.1)) ∧ path ∈ s'.modules.map (·.1) := by
+  have hc : Closed (fun t : State => (∀ k ∈ t.modules.map (·.1), k = path ∨ k ∈ s.modules.map (·.1)) ∧
+      (∀ k ∈ s.modules.map (·.1), k ∈ t.modules.map (·.1)) ∧ path ∈ t.modules.map (·.1)) := by
+    refine ⟨?_, ?_⟩
+    · intro t t' i ht ha
+      rw [keys_addItem t t' i ha]
+      exact ht
+    · intro t p st ht
+      exact ht
+  refine hc.addMod s s' m path ?_ h
+  intro xvals doc
+  refine ⟨?_, ?_, ?_⟩
+  · intro k hk
+    simp only [State.putModule, List.map_cons, List.mem_cons] at hk
+    rcases hk with rfl | hk
+    · exact Or.inl rfl
+    · right
+      obtain ⟨e, he, rfl⟩ := List.mem_map.mp hk
+      exact List.mem_map.mpr ⟨e, (List.mem_filter.mp he).1, rfl⟩
+  · intro k hk
+    simp only [State.putModule, List.map_cons, List.mem_cons]
+    by_cases e : k = path
+    · exact Or.inl e
+    · right
+      obtain ⟨x, hx, rfl⟩ := List.mem_map.mp hk
+      exact List.mem_map.mpr ⟨x, List.mem_filter.mpr ⟨hx, by simpa using e⟩, rfl⟩
+  · simp [State.putModule]
+
+theorem listed_fold (l : List ModEnt) (s0 s : State) (h : Res.foldlM modStep s0 l = .ok s)
+    (hnd : (astPaths l).Nodup) (hfresh : ∀ p ∈ astPaths l, p = [] ∨ p ∉ s0.modules.map (·.1))
+    (h0 : ModInv s0 ∧ Listed s0) : ModInv s ∧ Listed s := by
+  induction l generalizing s0 with
+  | nil => simp only [Res.foldlM, Res.ok.injEq] at h; subst h; exact h0
+  | cons me rest ih =>
+    obtain ⟨s1, h1, h2⟩ := C14.foldlM_cons_ok modStep s0 s me rest h
+    cases me with
+    | text f t => cases h1
+    | ast path file m =>
+      have hap : astPaths (ModEnt.ast path file m :: rest) = path :: astPaths rest := rfl
+      rw [hap] at hnd hfresh
+      have hstep : s0.addModule m path = .ok s1 := h1
+      have hI1 : ModInv s1 ∧ Listed s1 :=
+        modInvListed_closed.addMod s0 s1 m path
+          (fun xvals doc => ⟨modInv_putModule s0 path _ rfl h0.1,
+            listed_putModule s0 path _ h0.2 (hfresh path List.mem_cons_self)⟩) hstep
+      obtain ⟨hk1, _, _⟩ := addModule_keys s0 s1 m path hstep
+      refine ih s1 h2 (List.nodup_cons.mp hnd).2 ?_ hI1
+      intro p hp
+      rcases hfresh p (List.mem_cons_of_mem _ hp) with h3 | h3
+      · exact Or.inl h3
+      · right
+        intro hmem
+        rcases hk1 p hmem with e | e
+        · subst e
+          exact (List.nodup_cons.mp hnd).1 hp
+        · exact h3 e
+
+/-- every module path of the case is the key of a stored module -/
+theorem keys_fold (l : List ModEnt) (s0 s : State) (h : Res.foldlM modStep s0 l = .ok s) :
+    (∀ k ∈ s0.modules.map (·.1), k ∈ s.modules.map (·.1)) ∧ ∀ p ∈ astPaths l, p ∈ s.modules.map (·.1) := by
+  induction l generalizing s0 with
+  | nil => simp only [Res.foldlM, Res.ok.injEq] at h; subst h; exact ⟨fun k hk => hk, fun p hp => by cases hp⟩
+  | cons me rest ih =>
+    obtain ⟨s1, h1, h2⟩ := C14.foldlM_cons_ok modStep s0 s me rest h
+    cases me with
+    | text f t => cases h1
+    | ast path file m =>
+      have hstep : s0.addModule m path = .ok s1 := h1
+      obtain ⟨_, hk2, hk3⟩ := addModule_keys s0 s1 m path hstep
+      obtain ⟨i1, i2⟩ := ih s1 h2
+      refine ⟨fun k hk => i1 k (hk2 k hk), ?_⟩
+      intro p hp
+      have hap : astPaths (ModEnt.ast path file m :: rest) = path :: astPaths rest := rfl
+      rw [hap] at hp
+      rcases List.mem_cons.mp hp with rfl | hp
+      · exact i1 p hk3
+      · exact i2 p hp
+
+theorem keysSup_closed (K : List Path) : Closed (fun t : State => ∀ k ∈ K, k ∈ t.modules.map (·.1)) :=
+  ⟨fun t t' i ht ha => by rw [keys_addItem t t' i ha]; exact ht, fun _ _ _ ht => ht⟩
+
+theorem mem_astPaths (l : List ModEnt) (path : Path) (file : String) (m : G.Module) (h : ModEnt.ast path file m ∈ l) :
+    path ∈ astPaths l := List.mem_filterMap.mpr ⟨_, h, rfl⟩
+
+/-- **every module of the case is stored**: for every module written in the case, the final state holds a module under
+    its path -/
+theorem case_modules_present (c : Case) (s : State) (h : c.run = .ok s) (path : Path) (file : String) (m : G.Module)
+    (hm : ModEnt.ast path file m ∈ c.modules) : ∃ md, (path, md) ∈ s.modules := by
+  unfold Case.run at h
+  split at h
+  · next s0 hs0 =>
+    rw [initialState_eq] at hs0
+    obtain ⟨_, hall⟩ := keys_fold c.modules _ s0 hs0
+    obtain ⟨s1, hl, ms, hms, rfl⟩ := C09.build_ok_inv s0 c.prio s h
+    have h1 := (keysSup_closed [path]).loop c.prio _ s0
+      (fun k hk => by simp at hk; subst hk; exact hall _ (mem_astPaths c.modules k file m hm)) s1 hl
+    obtain ⟨hk, _⟩ := final_modules s1.reg s1.modules ms hms
+    have : path ∈ ms.map (·.1) := by rw [hk]; exact h1 path (by simp)
+    obtain ⟨e, he, rfl⟩ := List.mem_map.mp this
+    exact ⟨e.2, he⟩
+  · cases h
+  · cases h
+  · cases h
+
+theorem keysEq_closed (K : List Path) : Closed (fun t : State => t.modules.map (·.1) = K) :=
+  ⟨fun t t' i ht ha => by rw [keys_addItem t t' i ha]; exact ht, fun _ _ _ ht => ht⟩
+
+/-- **every item of a non-root module is listed in its module**, for every accepted case whose module paths are
+    pairwise distinct -/
+theorem case_listed (c : Case) (hnd : (astPaths c.modules).Nodup) (s : State) (h : c.run = .ok s) : Listed s := by
+  unfold Case.run at h
+  split at h
+  · next s0 hs0 =>
+    rw [initialState_eq] at hs0
+    have hnew : ModInv (State.new c.ps) ∧ Listed (State.new c.ps) := by
+      refine modInvListed_closed.init c.ps ⟨⟨(by simp), (by intro e he; simp at he; subst he; exact List.nodup_nil),
+        (by intro e he q hq; simp at he; subst he; cases hq), (by intro e he q hq; simp at he; subst he; cases hq)⟩, ?_⟩
+      intro q i par hg
+      cases hg
+    have hkeys0 : (State.new c.ps).modules.map (·.1) = [[]] :=
+      (keysEq_closed [[]]).init c.ps rfl
+    have h0 := listed_fold c.modules _ s0 hs0 hnd (by
+      intro p _
+      rw [hkeys0]
+      by_cases e : p = []
+      · exact Or.inl e
+      · exact Or.inr (by simpa using e)) hnew
+    obtain ⟨s1, hl, ms, hms, rfl⟩ := C09.build_ok_inv s0 c.prio s h
+    have h1 := modInvListed_closed.loop c.prio _ s0 h0 s1 hl
+    obtain ⟨_, hdp⟩ := final_modules s1.reg s1.modules ms hms
+    intro q i par hg hp hne
+    obtain ⟨md, hmd, hq⟩ := h1.2 q i par hg hp hne
+    obtain ⟨e', he', hfe⟩ := mem_of_map_eq _ _ _ hdp.symm (par, md) hmd
+    simp only [Prod.mk.injEq] at hfe
+    refine ⟨e'.2, ?_, by rw [← hfe.2]; exact hq⟩
+    have : e' = (par, e'.2) := by rw [hfe.1]
+    rw [← this]; exact he'
+  · cases h
+  · cases h
+  · cases h
+
+theorem distinct_of_nodup (l : List ModEnt) (hnd : (astPaths l).Nodup) :
+    ∀ path f1 m1 f2 m2, ModEnt.ast path f1 m1 ∈ l → ModEnt.ast path f2 m2 ∈ l → m1 = m2 := by
+  induction l with
+  | nil => intro path f1 m1 f2 m2 h1; cases h1
+  | cons me rest ih =>
+    intro path f1 m1 f2 m2 h1 h2
+    have hrest : (astPaths rest).Nodup := by
+      cases me with
+      | ast p f m => exact (List.nodup_cons.mp (show (p :: astPaths rest).Nodup from hnd)).2
+      | text f t => exact hnd
+    rcases List.mem_cons.mp h1 with e1 | e1
+    · rcases List.mem_cons.mp h2 with e2 | e2
+      · rw [← e1] at e2; cases e2; rfl
+      · subst e1
+        exact absurd (mem_astPaths rest path f2 m2 e2) (List.nodup_cons.mp (show (path :: astPaths rest).Nodup from hnd)).1
+    · rcases List.mem_cons.mp h2 with e2 | e2
+      · subst e2
+        exact absurd (mem_astPaths rest path f1 m1 e1) (List.nodup_cons.mp (show (path :: astPaths rest).Nodup from hnd)).1
+      · exact ih hrest path f1 m1 f2 m2 e1 e2
+
+theorem distinctModulePaths_of_nodup (c : Case) (hnd : (astPaths c.modules).Nodup) : DistinctModulePaths c :=
+  distinct_of_nodup c.modules hnd
+
+/-- a stored non-root module has a file -/
+theorem moduleFile_mem_files (s : State) (e : Path × Mod) (he : e ∈ s.modules) (hne : e.1 ≠ []) :
+    Emit.moduleFile s e.1 e.2 ∈ Emit.files s := by
+  unfold Emit.files Emit.sortBy
+  refine List.mem_map.mpr ⟨e, List.mem_mergeSort.mpr (List.mem_filter.mpr ⟨he, ?_⟩), rfl⟩
+  cases h : e.1 with
+  | nil => exact absurd h hne
+  | cons a l => rfl
+
+/-- the items printed for a listed entry are items of the module's file -/
+theorem itemItems_in_file (s : State) (key : Path) (md : Mod) (q : Path) (i : ItemDef) (hq : q ∈ md.defPaths)
+    (hg : s.reg.get q = some i) : ∀ x ∈ Emit.itemItems s.reg i, x ∈ fileItems (Emit.moduleFile s key md) := by
+  intro x hx
+  rw [fileItems_moduleFile]
+  simp only [List.mem_append]
+  left; left; right
+  simp only [List.mem_flatMap, Emit.sortBy, List.mem_mergeSort, List.mem_filterMap]
+  exact ⟨i, ⟨q, hq, hg⟩, hx⟩
 
 
 end PyxisVerif.CaseLift2
